@@ -135,8 +135,10 @@ def parse (s0 : Bytes) : Parsed :=
             | q => (false, q)
           if ds.isEmpty || !ds.all isDigit then none
           else
-            -- strconv caps the accumulated exponent; anything this large is decided by the guard below
-            let v : Nat := if ds.length > 8 then 100000000 else digitsVal ds
+            -- strconv caps the accumulated exponent (leading zeros do not count: `1e0000000005` is 1e5); anything this large is
+            -- decided by the guard below
+            let sig := ds.dropWhile (· == 48)
+            let v : Nat := if sig.length > 8 then 100000000 else digitsVal sig
             some (if eneg then -(v : Int) else (v : Int))
         else none
     match expo? with
